@@ -13,6 +13,20 @@ CLAIMED = {
          'trusted: TLC, the projection/universe builder in pv/container_exec.py, the transcription of SQLObject.__eq__ into Eq*',
          'DESIGN.md 2.2, 4.6, 5 (C09)'),
 }
+CLAIMED['C01'] = ('TLC-generated abstract documents (GenDoc.tla) printed in swept and random surface forms, parsed by /repo; '
+                  'TLC compares the projected Database with Doc!ParseDoc field by field (TraceDoc.tla)',
+                  'Doc.tla gives the parser an operational model (two-phase build) and declarative properties (NothingDropped, '
+                  'Linked, OptionNeutral) that TLC checks on every generated document; every (document, surface form) is a '
+                  'trace of the real parser validated by TLC against ParseDoc; bounded by the generator pools and seeds',
+                  'trusted: TLC, the concretiser pv/surface.py (prints only admissible spellings), the projection pv/project.py',
+                  'DESIGN.md 2.3, 2.4, 4.2, 4.3, 5 (C01)')
+CLAIMED['C05'] = ('TLC-generated documents parsed by /repo; identity-resolved projection of links, back-pointers, lookups and '
+                  'get_refs / SQL key-holder queries compared by TLC with Doc!ParseDoc, GetRefs, ColGetRefs, SqlRefs',
+                  'links are positions obtained by object identity (`is`), so a copied column, a reference bound to the wrong '
+                  'table or a missing back-pointer is a field mismatch named in the verdict; Linked and OneKeyHolder are checked '
+                  'by TLC at design level on every generated document',
+                  'trusted: TLC, pv/project.py (identity resolution), pv/surface.py',
+                  'DESIGN.md 2.3, 5 (C05)')
 NOT_YET = {}
 
 def main():
